@@ -122,6 +122,30 @@ class Run:
         self.transitions += max(res.generated - res.init, 0)
         return res
 
+    # ------------------------------------------------------------ Apalache
+    def apalache(self, module, cinit, init, inv, length, timeout=900, expect_violation=False, name=None):
+        """apalache-mc check on spec/<module>.tla (symbolic bounded check; used for inductive invariants)."""
+        name = name or f'apa-{module}-{cinit}-{init}-{length}'
+        out = os.path.join(self.work, name)
+        cmd = ['timeout', str(timeout), 'apalache-mc', 'check', f'--cinit={cinit}', f'--init={init}', f'--inv={inv}',
+               f'--length={length}', f'--out-dir={out}', '--run-dir=' + os.path.join(out, 'run'), module + '.tla']
+        t = time.time()
+        p = subprocess.run(cmd, cwd=SPEC, stdout=subprocess.PIPE, stderr=subprocess.STDOUT, text=True)
+        wall = time.time() - t
+        shutil.rmtree(out, ignore_errors=True)
+        ok = 'EXITCODE: OK' in p.stdout and 'The outcome is: NoError' in p.stdout
+        bad = 'The outcome is: Error' in p.stdout or 'violat' in p.stdout.lower()
+        self.tlc_runs.append({'module': module, 'engine': 'apalache 0.58', 'cinit': cinit, 'init': init, 'inv': inv, 'length': length,
+                              'rc': p.returncode, 'wall_s': round(wall, 1), 'outcome': 'NoError' if ok else ('Error' if bad else 'failed')})
+        if expect_violation:
+            if not bad or ok:
+                raise MachineryError(f'Apalache did not reject {module} {cinit}/{init}/{inv}:\n' + '\n'.join(p.stdout.splitlines()[-25:]))
+            return False
+        if not ok:
+            raise MachineryError(f'Apalache failed on {module} {cinit}/{init}/{inv} (rc={p.returncode}):\n' + '\n'.join(p.stdout.splitlines()[-25:]))
+        self.laws[f'{module}.{inv} [{init}, length {length}] (Apalache)'] = 'holds'
+        return True
+
     # ------------------------------------------------------- disagreements
     def disagree(self, kind, case, expected, observed, features=None, clause=None, repro=None):
         self.disagreements.append({'kind': kind, 'case': case, 'expected': expected, 'observed': observed,
